@@ -145,7 +145,7 @@ func c13Scenarios(tier string) []e1lib.Scenario {
 				}
 				// take j, go idle for G, then burst (pace 0) - for every j
 				for j := 0; j < k; j++ {
-					for _, G := range []int{I / 2, I, I + 1, 2 * I, 10 * I} {
+					for _, G := range []int{I / 2, I, I + 1, 2 * I, 10 * I, 10*I + 1} {
 						if tier == "quick" && (G == I+1 || (G == 2*I && ops == 3)) {
 							continue
 						}
@@ -181,6 +181,40 @@ func c13Scenarios(tier string) []e1lib.Scenario {
 				gaps[0] = I
 				add(timed.Cfg{Kind: "throttle", Ops: ops, Interval: I, Cap: cp, K: k, ConsGaps: gaps, CancelAt: at})
 			}
+		}
+	}
+	// under context.Background() (never cancelled, Done() is nil; the pacer then runs for ever, so these executions are cut at
+	// the step horizon and judged by the prefix-closed clauses: order and rate), and with intervals of everyday magnitude
+	for ops := 1; ops <= 3; ops++ {
+		for cp := 0; cp <= 1; cp++ {
+			k := 2*ops + cp + 3
+			for _, j := range []int{-1, 0, ops, ops + 1} {
+				for _, G := range []int{10 * I, 10*I + 1, 10*I + 3, I + 1} { // idle periods that end on and off the interval grid
+					gaps := make([]int, k)
+					if j >= 0 {
+						gaps[j] = G
+					} else if G != 10*I {
+						continue
+					}
+					add(timed.Cfg{Kind: "throttle", Ops: ops, Interval: I, Cap: cp, K: k, ConsGaps: gaps, CancelAt: -1, Background: true})
+					out[len(out)-1].Horizon = 600
+				}
+			}
+		}
+	}
+	for _, iv := range []int{190e6, 1500e6} {
+		for ops := 1; ops <= 2; ops++ {
+			k := 2*ops + 3
+			for _, g := range []int{0, iv / 2} {
+				gaps := make([]int, k)
+				for i := range gaps {
+					gaps[i] = g
+				}
+				add(timed.Cfg{Kind: "throttle", Ops: ops, Interval: iv, Cap: 0, K: k, ConsGaps: gaps, CancelAt: -1})
+			}
+			gaps := make([]int, k)
+			gaps[1] = 10 * iv
+			add(timed.Cfg{Kind: "throttle", Ops: ops, Interval: iv, Cap: 0, K: k, ConsGaps: gaps, CancelAt: -1})
 		}
 	}
 	// an interval of zero (or below) is "no pacing": the stage is then a plain copy - every element, in order, and the
